@@ -304,7 +304,7 @@ Notation pexps := (Fmt0.pexps c).
 Ltac congr := repeat first [ reflexivity | assumption | apply obs_app_congr | apply erase_cons ].
 Lemma erase_ncond d e : obs (pexp d (ncond e)) = obs (pexp d e).
 Proof.
-  destruct e; try apply erase_pexp_nexp. unfold ncond. rewrite erase_pexp_nexp. cbn [Fmt0.pexp]. symmetry. apply erase_parens.
+  induction e; try apply erase_pexp_nexp. cbn [ncond]. rewrite IHe. cbn [Fmt0.pexp]. symmetry. apply erase_parens.
 Qed.
 Lemma erase_pexps d es : obs (pexps d (nexps es)) = obs (pexps d es).
 Proof.
@@ -763,23 +763,11 @@ End CensusProg.
 (* the rule on whole programs: a predicate on every expression of a program, with "nothing follows" at the roots *)
 Section SAll.
 Variable P : exp -> bool.
-Definition pall (l : list exp) : bool := forallb P l.
-Fixpoint sall_s (s : stmt) : bool :=
-  match s with
-  | SLocal _ es | SReturn es => pall es
-  | SAssign vs es => pall vs && pall es
-  | SCall e => P e
-  | SDo b => sall_b b
-  | SWhile e b | SRepeat b e => P e && sall_b b
-  | SIf e t r => P e && sall_b t && sall_r r
-  | SNumFor _ a b st body => P a && P b && match st with Some x => P x | None => true end && sall_b body
-  | SGenFor _ es body => pall es && sall_b body
-  | SFunction _ _ _ _ body | SLocalFunction _ _ _ body => sall_b body
-  | SBreak => true
-  end
-with sall_r (r : els) : bool := match r with NoElse => true | Else b => sall_b b | ElseIf e t r2 => P e && sall_b t && sall_r r2 end
-with sall_i (i : item) : bool := match i with Item _ _ s _ => sall_s s end
-with sall_b (b : blk) : bool := match b with Blk is _ => forallb sall_i is end.
+Notation pall := (Fmt0.pall P).
+Notation sall_s := (Fmt0.sall_s P).
+Notation sall_r := (Fmt0.sall_r P).
+Notation sall_i := (Fmt0.sall_i P).
+Notation sall_b := (Fmt0.sall_b P).
 Variable fe : exp -> exp.
 Hypothesis Hfe : forall e, P (fe e) = true.
 Lemma pall_map es : pall (map fe es) = true.
@@ -819,7 +807,7 @@ End Map.
 Hypothesis Hn : forall c e, P (nexp c e) = P e.
 Hypothesis Hp : forall e, P (EParen e) = P e.
 Lemma P_ncond e : P (ncond e) = P e.
-Proof. destruct e; try apply Hn. unfold ncond. rewrite Hn, Hp. reflexivity. Qed.
+Proof. induction e; try apply Hn. cbn [ncond]. rewrite IHe, Hp. reflexivity. Qed.
 Lemma pall_nexps es : pall P (nexps es) = pall P es.
 Proof. unfold pall, nexps. induction es as [|x r IH]; [reflexivity|]. cbn [map forallb]. rewrite Hn, IH. reflexivity. Qed.
 Theorem sall_nblk_eq : (forall s, sall_s P (nstmt s) = sall_s P s) /\ (forall b, sall_b P (nblk b) = sall_b P b).
